@@ -19,8 +19,9 @@ pub fn tamper_samples(t: Tier) -> usize {
     t.pick(6, 300)
 }
 /// 16 subsets x 3 kinds per sample, plus stored-R_A faults
+const C15_PAR: usize = 24;
 pub fn runs_c15(t: Tier) -> usize {
-    1 + honest_runs(t) + tamper_samples(t) * (16 * TAMPER_KINDS.len() + 2)
+    1 + honest_runs(t) + tamper_samples(t) * (16 * TAMPER_KINDS.len() + 2) + C15_PAR
 }
 
 fn class_of(v: &Value) -> &str {
@@ -186,6 +187,60 @@ fn session(p: &mut Prng, w: &mut World, pfx: &str, plan: &Plan, scripted: Option
     }
 }
 
+/// Two honest agreements (four library parties, four keys) advance in lock step; the two calls of
+/// each step are made by two simulated caller threads. Both must end with agreeing keys.
+fn concurrent_sessions(p: &mut Prng, w: &mut World) {
+    let n = n_sm2();
+    let klen = p.range(1, 96);
+    for pfx in ["k", "q"] {
+        let s = |x: &str| format!("{pfx}.{x}");
+        for side in ["a", "b"] {
+            w.exec(set(&s(&format!("{side}.d")), &be32(&scalar_class(p, &n).0)));
+            w.exec(json!({"op":"sm2.derive_pk","impl":"lib","d":s(&format!("{side}.d")),"pk":s(&format!("{side}.pk")),"comp":false}));
+            w.exec(set(&s(&format!("{side}.id")), &ascii(p, 8)));
+        }
+        w.exec(json!({"op":"sm2.kex.new","obj":s("A"),"impl":"lib","role":"A","klen":klen,"d":s("a.d"),"pk":s("a.pk"),"id":s("a.id"),"peer_id":s("b.id"),"peer_pk":s("b.pk")}));
+        w.exec(json!({"op":"sm2.kex.new","obj":s("B"),"impl":"lib","role":"B","klen":klen,"d":s("b.d"),"pk":s("b.pk"),"id":s("b.id"),"peer_id":s("a.id"),"peer_pk":s("a.pk")}));
+    }
+    let step = |pfx: &str, k: usize, p: &mut Prng| -> Value {
+        let s = |x: &str| format!("{pfx}.{x}");
+        match k {
+            1 => json!({"op":"sm2.kex.1","obj":s("A"),"out":s("m1.ra"),"rng":rng_json(&uniform_script(p, 1))}),
+            2 => json!({"op":"sm2.kex.2","obj":s("B"),"ra":s("m1.ra"),"ra_via":"new","out_rb":s("m2.rb"),"out_sb":s("m2.sb"),"reused":false,"rng":rng_json(&uniform_script(p, 1))}),
+            3 => json!({"op":"sm2.kex.3","obj":s("A"),"rb":s("m2.rb"),"rb_via":"new","sb":s("m2.sb"),"out_sa":s("m3.sa"),"reused":false}),
+            _ => json!({"op":"sm2.kex.4","obj":s("B"),"sa":s("m3.sa"),"ra":s("m1.ra"),"ra_via":"struct","reused":false}),
+        }
+    };
+    // session q runs `lag` steps behind session k (0: same step side by side)
+    let lag = p.range(0, 2);
+    let mut alive = true;
+    for t in 1..=(4 + lag) {
+        let (sk, sq) = (t, t as isize - lag as isize);
+        let a = if sk <= 4 { Some(step("k", sk, p)) } else { None };
+        let b = if (1..=4).contains(&sq) { Some(step("q", sq as usize, p)) } else { None };
+        let r = match (a, b) {
+            (Some(a), Some(b)) => w.exec(par(a, b, &par_order(p))),
+            (Some(x), None) | (None, Some(x)) => {
+                let r = w.exec(x);
+                json!({"a": r})
+            }
+            _ => Value::Null,
+        };
+        for side in ["a", "b"] {
+            if let Some(x) = r.get(side) {
+                if !x.is_null() && class_of(x) != "Ok" {
+                    alive = false;
+                }
+            }
+        }
+        if !alive {
+            break;
+        }
+    }
+    w.exec(json!({"op":"sm2.kex.end","a":"k.A","b":"k.B"}));
+    w.exec(json!({"op":"sm2.kex.end","a":"q.A","b":"q.B"}));
+}
+
 fn impls(p: &mut Prng) -> (&'static str, &'static str) {
     match p.below(4) {
         0 => ("lib", "ref"),
@@ -216,6 +271,12 @@ pub fn run_c15(p: &mut Prng, t: Tier, i: usize, sink: &mut Sink) {
         return;
     }
     let h = honest_runs(t);
+    if i > runs_c15(t) - 1 - C15_PAR {
+        concurrent_sessions(p, &mut w);
+        w.objs.kex.clear();
+        sink.done(w);
+        return;
+    }
     let plan = if i <= h {
         let (a, b) = impls(p);
         Plan { impl_a: a, impl_b: b, via_ra: if p.chance(1, 2) { "new" } else { "struct" }, via_rb: if p.chance(1, 2) { "new" } else { "struct" }, tamper: 0, kind: "flip" }
